@@ -481,10 +481,18 @@ def explore(engine, harness, params, workers=None, max_paths=None, wall_budget=N
                 break
             while pending and len(inflight) < workers * 2:
                 # hand out small batches; single prefix per task while the frontier is small
-                if seed:
-                    rng.shuffle(pending)
+                # fair order: the frontier is visited in a (seeded) random order, so that a wall budget cuts every
+                # configuration / template of a harness evenly instead of starving the ones enumerated last
+                if len(pending) > 1:
+                    k = rng.randrange(len(pending))
+                    pending[k], pending[-1] = pending[-1], pending[k]
                 n = 1 if len(pending) < workers * 4 else min(8, len(pending) // (workers * 2) + 1)
-                batch = [pending.pop() for _ in range(min(n, len(pending)))]
+                batch = []
+                for _ in range(min(n, len(pending))):
+                    if len(pending) > 1:
+                        k = rng.randrange(len(pending))
+                        pending[k], pending[-1] = pending[-1], pending[k]
+                    batch.append(pending.pop())
                 q = 1 if len(pending) + len(inflight) < workers else quota
                 inflight.append(pool.apply_async(_run_paths, ((batch, q, params),)))
             still = []
